@@ -115,7 +115,7 @@ PROPERTIES["C11"] = dict(
              "single-assertion conflicts without a producer position (enclosing-function scan over pass.Files)", "toPos (C14)"],
     assumptions=COMMON_ASSUMPTIONS + ["toPos is replaced by the identity on offsets under symx (its result is not observed); the native replay runs the real toPos"],
     runs=[
-        dict(pkg="diagnostic", files=["diagnostic/zz_verif_c11.go"], entry="Harness_C11",
+        dict(pkg="diagnostic", files=["diagnostic/zz_verif_c11.go", "diagnostic/zz_verif_c14.go"], entry="Harness_C11",
              quick=dict(params=dict(N=2, R=2)), thorough=dict(params=dict(N=3, R=1)), args=dict(sample_every=997)),
     ],
 )
@@ -129,7 +129,7 @@ PROPERTIES["C13"] = dict(
              "single-assertion conflicts without a producer position"],
     assumptions=COMMON_ASSUMPTIONS,
     runs=[
-        dict(pkg="diagnostic", files=["diagnostic/zz_verif_c11.go"], entry="Harness_C13",
+        dict(pkg="diagnostic", files=["diagnostic/zz_verif_c11.go", "diagnostic/zz_verif_c14.go"], entry="Harness_C13",
              quick=dict(params=dict(N=3)), thorough=dict(params=dict(N=5)), args=dict(sample_every=499)),
     ],
 )
@@ -294,5 +294,18 @@ PROPERTIES["C07"] = dict(
     runs=[
         dict(pkg="util/analysishelper", files=["analysishelper/zz_verif_c07.go"], entry="Harness_C07_WrapRun", args=dict(sample_every=1)),
         dict(pkg="accumulation", files=["accumulation/zz_verif_c07.go", "config::config/zz_verif_export.go"], entry="Harness_C07_Accumulation", args=dict(sample_every=1)),
+    ],
+)
+
+PROPERTIES["C14"] = dict(
+    explanation="symx executes (*diagnostic.Engine).AddOverconstraintConflict on explanation chains of length 1-3 per side with symbolic positions, and NewEngine + (*Engine).toPos together with the REAL go/token "
+                "FileSet/File code they drive (AddFile, SetLines, AddLine, LineStart, Pos, Position) for real, fake (archive) and unknown files with a symbolic line and column.",
+    bounds=dict(quick="explanation chains <=3 per side, root by trigger or by annotation; files: 8-line real file, fake file with 1-4 known lines, unknown file; line 1..8, column 1..9; two diagnostics per file", thorough="same"),
+    outside=["existence of the files on disk, real drivers, PrintFullFilePath and the working directory (environment)", "lines beyond the fake file's 65536 fake lines",
+             "that each flow step's printed file:line:column exists (the steps' positions come from the analysed program)"],
+    assumptions=COMMON_ASSUMPTIONS + ["os.Getwd returns a constant under symx (tokenhelper's initialiser is executed)", "explanations are harness implementations of inference.ExplainedBool (the engine's own carry an unexported type)"],
+    runs=[
+        dict(pkg="diagnostic", files=["diagnostic/zz_verif_c11.go", "diagnostic/zz_verif_c14.go"], entry="Harness_C14_Conflict", args=dict(sample_every=3)),
+        dict(pkg="diagnostic", files=["diagnostic/zz_verif_c11.go", "diagnostic/zz_verif_c14.go"], entry="Harness_C14_ToPos", args=dict(sample_every=31)),
     ],
 )
